@@ -71,6 +71,7 @@ fn main() {
         }
         "policy" => sat::policy::run(&args),
         "uskmac" => sat::uskmac::run(&args),
+        "tamper" => sat::tamper::run(&args),
         "pke" => sat::pke::run(&args),
         "wire" => sat::wire::run(&args),
         "features" => {
